@@ -25,6 +25,7 @@ AUTOMUT_TRIAGE = [
 
 def run(chk):
     repo = chk.repo
+    cm.schema(chk, repo, "C12")
     d1_region_sense(chk, repo)
     d1_field_sense(chk, repo)
     d2_units(chk, repo)
